@@ -112,16 +112,21 @@ let rule_name = function
   | _ -> "rule"
 
 (* observed per load: (r accepted|rejected (cites..) msg (same a b c) (view item...) (ops (o t)...)) *)
-type oload = { acc : bool; panicked : bool; cites : (int * int) list; same : bool list; oview : S.t }
+type oload = { acc : bool; panicked : bool; cites : (int * int) list; same : bool list; oview : S.t;
+               listed : ((Model.nat * Model.nat list) list * (Model.nat * Model.nat list) list) option }
 
 let oload_of = function
-  | S.L [S.A "r"; S.A res; S.L (S.A "cites" :: cs); _; S.L (S.A "same" :: sm); S.L (S.A "view" :: items); S.L (S.A "ops" :: ops)] ->
+  | S.L (S.A "r" :: S.A res :: S.L (S.A "cites" :: cs) :: _ :: S.L (S.A "same" :: sm) :: S.L (S.A "view" :: items) :: S.L (S.A "ops" :: ops) :: rest) ->
+    let entries l = List.map (function S.L [k; S.L bs] -> (n k, List.map n bs) | _ -> failwith "schema: listed") l in
+    let listed = match rest with
+      | [S.L [S.A "listed"; S.L (S.A "types" :: ts); S.L (S.A "dirs" :: ds)]] -> Some (entries ts, entries ds)
+      | _ -> None in
     let its = List.map item_of items in
     let ops = List.map (function S.L [o; t] -> (n o, n t) | _ -> failwith "schema: op") ops in
     { acc = (res = "accepted"); panicked = (res = "panicked");
       cites = List.map (function S.L [a; b] -> (S.int a, S.int b) | _ -> failwith "schema: cite") cs;
       same = List.map (fun x -> S.int x <> 0) sm;
-      oview = s_view (Model.view_of_items its ops) }, its
+      oview = s_view (Model.view_of_items its ops); listed }, its
   | x -> failwith ("schema: bad load observation " ^ S.to_string x)
 
 let project_load (o, _) = S.L [S.A (if o.acc then "accepted" else if o.panicked then "panicked" else "rejected"); o.oview]
@@ -195,7 +200,9 @@ let run (prop : string) (input : S.t) (observed : S.t) : S.t * string =
          else if macc && S.to_string o.oview <> S.to_string (s_view (Model.observe (snd (List.nth results idx)))) then
            add "fails:arrangement-defines-a-different-schema"
          else if o.acc && (match o.same with [_; _; _; false] -> true | _ -> false) then
-           add "fails:arrangement-lists-the-types-in-another-order");
+           add "fails:arrangement-lists-the-types-in-another-order"
+         else if o.acc && (match o.listed with Some (ts, ds) -> not (Model.listed_okb ts && Model.listed_okb ds) | None -> false) then
+           add "fails:types-not-listed-by-rank-and-name");
       prev_view := o.oview)
     (zip4 docs results befores obs);
   let verdict = match List.rev !fails with [] -> "holds" | f :: _ -> f in
